@@ -10,7 +10,9 @@ mkdir -p /var/tmp/vmut
 exec 9>/var/tmp/vmut/.lock; flock 9
 # scratch copy of /repo's current working tree (committed or not), never /repo itself
 mkdir -p "$WT"
-rsync -a --delete --exclude target --exclude .git /repo/ "$WT"/
+# no -t: a file whose content changes (patched, or restored after the previous mutant) gets a fresh mtime, so cargo rebuilds it;
+# --checksum: unchanged files are left alone (and keep their scratch mtime)
+rsync -rlpgoD --checksum --delete --exclude target --exclude .git /repo/ "$WT"/
 ( cd "$WT" && git apply --unsafe-paths "$patch" ) || ( cd "$WT" && patch -p1 --no-backup-if-mismatch < "$patch" ) || { echo "patch does not apply"; exit 2; }
 mkdir -p "$VR"
 rsync -a --delete --exclude target --exclude evidence --exclude replays --exclude .git /verif/ "$VR"/
